@@ -68,6 +68,9 @@ def _parse_from_prepared_metadata(
                         root_logger,
                         "setLevel",
                         _fake_set_level,
+                        sys,
+                        "argv",
+                        list(sys.argv),
                     ):
                         info = prepare(dest)
                 finally:
